@@ -4,7 +4,7 @@ from . import monitors as M
 
 PLAN = [('concurrent', 12, 4), ('chaos', 5, 2)]
 MONITORS = [M.mon_concurrent, M.mon_one_outcome]
-THEOREMS = "C10_second_refused_inert, C10_second_refused_core, C10_admitted_only_when_free, C10_refusal_no_crash"
+THEOREMS = "C10_second_refused_inert, C10_second_refused_core, C10_admitted_only_when_free, C10_refusal_no_crash, C10_one_in_flight_run"
 CORPUS = ['C10']
 
 
